@@ -187,7 +187,7 @@ func genC17(r *rand.Rand, tier string) []Case {
 		if i%10 == 0 {
 			keys = append(keys, bytes.Repeat([]byte("K"), 1<<16))
 		}
-		c := &c17Case{Keys: keys, Opts: dbOpts{MemstoreBytes: 1 << 30, Threshold: 10, MaxSize: 5 << 30, RatioPct: 20, WBuf: 4096, RBuf: 4096, AsyncWAL: i%2 == 0}}
+		c := &c17Case{Keys: keys, Opts: dbOpts{MemstoreBytes: 1 << 30, Threshold: 10, MaxSize: 5 << 30, RatioPct: 20, WBuf: 4096, RBuf: 4096, AsyncWAL: i%2 == 0, EarlyClose: i%3 == 0}}
 		ns := 3 + r.Intn(28)
 		for j := 0; j < ns; j++ {
 			k := keys[r.Intn(len(keys))]
@@ -289,6 +289,21 @@ func genC17(r *rand.Rand, tier string) []Case {
 		c.Steps = append(c.Steps, dbStep{Op: "put", K: keys[1], V: []byte("other")}, dbStep{Op: "put", K: keys[0], V: []byte("final-value")}, dbStep{Op: "del", K: keys[1]})
 		o := c.Opts
 		c.Steps = append(c.Steps, dbStep{Op: "reopen", Opts: &o}, dbStep{Op: "get", K: keys[0]}, dbStep{Op: "get", K: keys[1]}, dbStep{Op: "reopen", Opts: &o}, dbStep{Op: "get", K: keys[0]})
+		cases = append(cases, c)
+	}
+	// a tombstone that a partial compaction keeps (as an empty value) over a live value in an older, excluded table: the
+	// deleted key must read as absent through both flavours, now and after restarts
+	for i := 0; i < nh; i++ {
+		keys := [][]byte{[]byte("a"), []byte("b"), []byte("big")}
+		c := &c17Case{Keys: keys, Opts: dbOpts{MemstoreBytes: 1 << 30, Threshold: 1, MaxSize: 300, RatioPct: 100, WBuf: 4096, RBuf: 4096, EarlyClose: i%2 == 0}}
+		big := make([]byte, 500+r.Intn(300))
+		r.Read(big)
+		c.Steps = append(c.Steps, dbStep{Op: "put", K: keys[0], V: []byte("old-a")}, dbStep{Op: "putb", K: keys[2], V: big}, dbStep{Op: "rotate"},
+			dbStep{Op: []string{"del", "delb"}[i%2], K: keys[0]}, dbStep{Op: "putb", K: keys[0], V: []byte{}}, dbStep{Op: "rotate"},
+			dbStep{Op: "put", K: keys[1], V: []byte("vb")}, dbStep{Op: "rotate"}, dbStep{Op: "compact"},
+			dbStep{Op: "get", K: keys[0]}, dbStep{Op: "getb", K: keys[0]}, dbStep{Op: "rotate"})
+		o := c.Opts
+		c.Steps = append(c.Steps, dbStep{Op: "reopen", Opts: &o}, dbStep{Op: "get", K: keys[0]}, dbStep{Op: "getb", K: keys[1]})
 		cases = append(cases, c)
 	}
 	// bursts of rotations that do not wait for the flusher: a value that has left the write store must be readable at
